@@ -139,7 +139,7 @@ def run(chk, replay=None):
                 if n == depth and chk.quick:
                     prod = rng.sample(list(prod), 1500)
                 elif n == depth:
-                    prod = rng.sample(list(prod), 12000)
+                    prod = rng.sample(list(prod), 40000)
                 for seq in prod:
                     s = [(op, nm, v, "E1") for (op, nm, v) in seq]
                     h = history(kind, init, s, "dict" if n_hist % 2 == 0 else "kwargs")
